@@ -52,6 +52,7 @@ ASSUMPTIONS = [
     "a TrampolineScheduler instance may be shared between threads (its class docstring says so)",
 ]
 
+TIMEOUT = {"quick": 240, "thorough": 3600}  # runner: wall-clock cap per shard
 ONS = ("c", "g", "t")
 KINDS = ("now", "rel", "reltd", "abs")
 
@@ -77,7 +78,8 @@ class World:
         self._singleton = CurrentThreadScheduler.singleton
         # the first singleton() call of a process also creates the per-class map (library-global state): do that here,
         # in the controller thread, so that every run of a (program, schedule) pair executes the same lines
-        CurrentThreadScheduler.singleton()
+        g0 = CurrentThreadScheduler.singleton()
+        schedrun.audit(self.c, self.t, self.t.get_trampoline(), g0, g0.get_trampoline())
 
     def _ev(self, kind, sid):
         tid = det.current_tid()
@@ -282,9 +284,13 @@ def run_tree(case):
     """Single thread, DET free mode (patched namespaces, fake clock), in the calling thread."""
     if len(case["threads"]) != 1:
         raise HarnessError("run_tree wants one thread")
-    with schedrun.quiet_rx_log(), det.patched():
-        w = World(case)
-        w.run_ops(case["threads"][0], w.ids[0])
+    w = None
+    try:
+        with schedrun.quiet_rx_log(), schedrun.patched(), schedrun.watchdog():
+            w = World(case)
+            w.run_ops(case["threads"][0], w.ids[0])
+    except schedrun.Wedged as e:
+        return FAIL(f"no-return|{_kinds(case)}", f"{e}; log so far={_fmt(w.rec) if w else ''}; case={case}")
     bad, facts = analyse(w)
     cl = sorted(facts) + [f"n:{min(len(w.meta), 8)}"]
     if bad:
